@@ -1,6 +1,7 @@
 import NriModel.Wire
 import NriModel.Extracted.ApiSchema
 import NriModel.Lemmas.WireProps
+import NriModel.Lemmas.WireOrder
 /-!
 Property theorems for C12 — both wire encodings of every protocol message agree.
 
@@ -128,5 +129,49 @@ example : encode demo 1 (demoVal.set 1 .none) ≠ encode demo 1 (demoVal.set 1 (
 example : encode demo 1 [.str [], .msg [.int 0], .list [], .smap [], .strs [], .int 0, .int 0] = [18, 0] := by
   decide
 example : encode demo 1 [.str [], .none, .list [], .smap [], .strs [], .int 0, .int 0] = [] := by decide
+
+/-- **Field order is free**: the records of the fields of a message, written in any order
+    of the fields (the records of one repeated field or map kept together), decode to the
+    value. (Both Go encoders write ascending field numbers; a conforming peer need not.) -/
+theorem C12_order_free (S : Schema) (hS : S.WF = true) (m : Nat) (v : List Val)
+    (hv : WellTyped S m v = true) (π : List (Field × Val))
+    (hπ : π.Perm ((S.fieldsOf m).zip v))
+    (hlen : (π.flatMap fun p => encField S p.1 p.2).length < 2 ^ 64) :
+    decode S m (π.flatMap fun p => encField S p.1 p.2) = some v :=
+  decode_perm S hS m v hv π hπ hlen
+
+example : decode demo 1 ((((demo.fieldsOf 1).zip demoVal).reverse).flatMap fun p => encField demo p.1 p.2)
+    = some demoVal :=
+  C12_order_free demo (by decide) 1 demoVal (by decide) _ (List.reverse_perm _) (by decide)
+
+/-- **Map entry order is free**: `MarshalVT` walks Go maps in random order. Whatever order
+    `l'` of the entries `l` of a map field ends up on the wire, the bytes decode (to the map
+    in that order), and both orders answer every lookup alike. -/
+theorem C12_map_order (S : Schema) (hS : S.WF = true) (m : Nat) (v : List Val) (i : Nat) (f : Field)
+    (l l' : List (Bytes × Bytes)) (hv : WellTyped S m v = true)
+    (hf : (S.fieldsOf m)[i]? = some f) (hty : f.ty = .mapSS) (hvi : v[i]? = some (.smap l))
+    (hp : l'.Perm l) (hlen : (encode S m (v.set i (.smap l'))).length < 2 ^ 64) :
+    decode S m (encode S m (v.set i (.smap l'))) = some (v.set i (.smap l')) ∧
+    ∀ k, AList.lookup l' k = AList.lookup l k := by
+  have hwl : wtVal S f.ty (.smap l) = true := by
+    obtain ⟨hi, hx⟩ := List.getElem?_eq_some_iff.mp hvi
+    have hz : (f, Val.smap l) ∈ (S.fieldsOf m).zip v := by
+      rw [List.mem_iff_getElem?]
+      exact ⟨i, by rw [List.getElem?_zip_eq_some]; exact ⟨hf, hvi⟩⟩
+    exact wtFields_zip S _ _ hv _ hz
+  simp only [hty, wtVal, Bool.and_eq_true, decide_eq_true_eq] at hwl
+  have hwl' : wtVal S f.ty (.smap l') = true := by
+    simp only [hty, wtVal, Bool.and_eq_true, decide_eq_true_eq]
+    refine ⟨?_, (hp.map _).nodup_iff.mpr hwl.2⟩
+    rw [List.all_eq_true] at hwl ⊢
+    exact fun e he => hwl.1 e (hp.mem_iff.mp he)
+  exact ⟨C12_roundtrip S hS m _ (wtFields_set S _ v i f _ hv hf hwl') hlen,
+    lookup_perm l l' hp hwl.2⟩
+
+example : decode demo 1 (encode demo 1 (demoVal.set 3 (.smap [([122], []), ([107], [118])])))
+    = some (demoVal.set 3 (.smap [([122], []), ([107], [118])])) := by
+  refine (C12_map_order demo (by decide) 1 (demoVal.set 3 (.smap [([107], [118]), ([122], [])])) 3
+    { name := "labels", num := 4, ty := .mapSS } [([107], [118]), ([122], [])] [([122], []), ([107], [118])]
+    (by decide) rfl rfl rfl (List.Perm.swap _ _ _) (by decide)).1
 
 end Nri.Props.C12
